@@ -206,10 +206,11 @@ def top_jesse_frame(tb) -> str:
     return name
 
 
-def run_backtest(c: C.RunCtx, spec, full_candles, label='s'):
-    """run one research.backtest under ctx `c`.  Returns outcome dict."""
+def run_backtest(c: C.RunCtx, spec, full_candles, label='s', args=None):
+    """run one research.backtest under ctx `c`.  Returns outcome dict.
+    `args`: argument objects to pass instead of freshly built ones (a caller re-using its objects)"""
     from jesse import research
-    config, routes, data_routes, candles, warm = jesse_args(spec, full_candles)
+    config, routes, data_routes, candles, warm = args if args is not None else jesse_args(spec, full_candles)
     c.session_no += 1
     c.in_session = True
     c.spec = spec
